@@ -21,7 +21,7 @@ def MmOKI (E : Ext R) (B : InvOp R) : Prop :=
 /-- a member as `mm` of the composite kinds sees it -/
 def facMmI (E : Ext R) (M : InvOp R) : FacV R := ⟨M.rows, M.cols, (M.den E).f, fun b' m => M.mm E b' m⟩
 /-- a member as `den` of the composite kinds sees it -/
-def facDenI (E : Ext R) (M : InvOp R) : FacAct R := ⟨M.rows, M.cols, (M.den E).f, fun _ m => m⟩
+def facDenI (E : Ext R) (M : InvOp R) : FacAct R := ⟨M.rows, M.cols, (M.den E).f, fun _ m => MatV.of m⟩
 
 theorem facMmI_ok (E : Ext R) (M : InvOp R) (h : MmOKI E M) : (facMmI E M).toAct.Ok := by
   intro b m p f hp hf
